@@ -214,3 +214,43 @@ pub proof fn lemma_refines_trans(r2: Seq<CharSet>, r: Seq<CharSet>, p: Seq<CharS
         }
     }
 }
+
+// x and y are in the same class of the partition given by the interval list l
+pub open spec fn cl_same(l: Seq<CharSet>, x: int, y: int) -> bool {
+    forall|i: int| 0 <= i < l.len() ==> cs_has(#[trigger] l[i], x) == cs_has(l[i], y)
+}
+
+// a refinement (as established by merge_partitions) never separates less than the partition it refines
+pub proof fn lemma_refines_same(r: Seq<CharSet>, p: Seq<CharSet>, x: int, y: int)
+    requires cp_sorted(r), cp_sorted(p), refines(r, p), forall|c: int| cl_in(p, c) ==> cl_in(r, c), cl_same(r, x, y),
+    ensures cl_same(p, x, y),
+{
+    assert forall|i: int| 0 <= i < p.len() implies cs_has(#[trigger] p[i], x) == cs_has(p[i], y) by {
+        if cs_has(p[i], x) || cs_has(p[i], y) {
+            // one of them is in p, hence in r; the other one is in the same interval of r
+            let z = if cs_has(p[i], x) { x } else { y };
+            assert(cl_in(p, z));
+            assert(cl_in(r, z));
+            let k = choose|k: int| 0 <= k < r.len() && cs_has(#[trigger] r[k], z);
+            assert(cs_has(r[k], x) && cs_has(r[k], y));
+            assert(in_one_class(p, r[k]));
+            if cl_covered_by_some(p, r[k]) {
+                let m = choose|m: int| 0 <= m < p.len() && #[trigger] cl_covered_by(p, r[k], m);
+                assert(cs_has(p[m], x) && cs_has(p[m], y));
+                if m < i { assert(p[m].end < p[i].start); }
+                if i < m { assert(p[i].end < p[m].start); }
+            } else {
+                assert(!cl_in(p, z));
+            }
+        }
+    }
+}
+
+pub proof fn lemma_merge_same(r: Seq<CharSet>, p1: Seq<CharSet>, p2: Seq<CharSet>, x: int, y: int)
+    requires cp_sorted(r), cp_sorted(p1), cp_sorted(p2), refines(r, p1), refines(r, p2),
+        forall|c: int| #[trigger] cl_in(r, c) == (cl_in(p1, c) || cl_in(p2, c)), cl_same(r, x, y),
+    ensures cl_same(p1, x, y), cl_same(p2, x, y),
+{
+    lemma_refines_same(r, p1, x, y);
+    lemma_refines_same(r, p2, x, y);
+}
